@@ -53,10 +53,16 @@ def ensure_hook():
         _HOOKED[0] = True
 
 
-def render_arg(arg, S):
+def render_arg(arg, S, semi_abs=False):
     if arg and arg[0] == '':
         return S + '/' + '/'.join(arg[1:]) if len(arg) > 1 else S + '/'
-    return '/'.join(arg)
+    out = ''
+    for k, c in enumerate(arg):
+        if k > 0:
+            # after a component ending in ";" the rest is written as an absolute path
+            out += (S + '/') if (semi_abs and arg[k - 1].endswith(';')) else '/'
+        out += c
+    return out
 
 
 def comps_of(path, S):
@@ -138,7 +144,7 @@ def _require_case(item):
         _SB[key] = S
     S = _SB[key]
     main = os.path.join(S, 'w', 'foo', 'main.lua')
-    a = render_arg(arg, S)
+    a = render_arg(arg, S, semi_abs=True)
     with open(main, 'wb') as f:
         f.write(b'local m = require("' + a.encode() + b'")\nprint(m)\n')
     out = os.path.join(S, 'out', 'out.p8')
@@ -187,6 +193,8 @@ def arg_class(arg):
         f.append('sibling')
     if '' in arg[1:]:
         f.append('emptycomp')
+    if any(';' in c or '?' in c for c in arg):
+        f.append('special')
     return '+'.join(f) or 'plain'
 
 
